@@ -120,7 +120,9 @@ class DefGen:
                         if ty in ("int16", "uint16") and f["default"] in ("0x7fffffff", "2147483647"):
                             f["default"] = "1"
                     elif ty == "bool":
-                        f["default"] = r.choice(["true", "false"])
+                        # upstream's FieldSpec compares case-insensitively and Jackson turns the JSON literals into text:
+                        # every spelling of a boolean default
+                        f["default"] = r.choice(["true", "false", "true", "false", "True", "FALSE", "TRUE", "False", True, False])
                     elif ty == "string":
                         f["default"] = r.choice(["", "abc", "null", "http://localhost:8080"]) if "nullableVersions" in f else r.choice(["", "abc", "http://localhost:8080"])
                         if f["default"] == "null":
@@ -403,7 +405,8 @@ def coq_field(f) -> str:
     return ("(DF {name} {type_} {versions} {nullable} {tagged} {tag} {ign} {default} {et} {fields})".format(
         name=cstr(f["name"]), type_=cstr(f["type"]), versions=copt(f.get("versions")), nullable=copt(f.get("nullableVersions")),
         tagged=copt(f.get("taggedVersions")), tag=copt(f.get("tag"), cz), ign="true" if f.get("ignorable") else "false",
-        default=copt(f.get("default")), et=copt(f.get("entityType")),
+        default=copt({True: "True", False: "False"}.get(f.get("default"), f.get("default")) if isinstance(f.get("default"), bool) else f.get("default")),
+        et=copt(f.get("entityType")),
         fields="None" if fields is None else "(Some [" + "; ".join(coq_field(x) for x in fields) + "])"))
 
 
